@@ -64,6 +64,9 @@ def build_model(rng, p_ia: float = 0.5) -> tuple[dict, dict]:  # noqa: ANN001
         # a readout and a derived quantity: the scan's tables carry the same columns as an independent simulation's
         spec["components"].append({"kind": "readout", "name": "ro", "fn": fl.ref(fl.div2), "args": [net.variables[0], net.variables[-1]]})
         spec["components"].append({"kind": "derived", "name": "dsum", "fn": fl.ref(fl.add2), "args": [net.variables[0], net.variables[-1]]})
+    if rng.random() < 0.35:
+        # a rate term that is exactly 0.0 through a silent floating-point underflow (numpy's default): no row fails for it
+        spec["components"].append({"kind": "reaction", "name": "vtail", "fn": fl.ref(fl.gauss_tail), "args": [net.variables[0], "k1"], "stoich": {net.variables[0]: -1}})
     kout = [r["k"] for r in net.rxns if r["name"] == "vout"][0]
     A0, _ = net.Ab(net.params | {kout: 0.0})
     info = {"ia": False, "params": [p for p in net.params], "variables": list(net.variables),
@@ -256,7 +259,7 @@ def run_case(case: dict) -> dict:
     modes += [{"parallel": True, "cores": c} for c in cores]
     viols: list[dict] = []
     counters: dict[str, int] = {f"kind:{kind}": 1, "rows": len(table), "failing_rows_planned": len(fail_rows),
-                                "with_y0": int("y0" in extra), "y0_and_a_table_column_name_the_same_variable": int(any(c in extra.get("y0", {}) for c in table.columns)), "time_points_beyond_the_protocol": int("beyond_end" in locals()), "rows_failing_in_a_later_protocol_step": int("late_failures" in locals()), "duplicate_row_labels": int(not table.index.is_unique), "column_overrides_assignment_defined_parameter": int(info["ia"] and "k1" in table.columns), "y0_overlaps_table_column": int(any(v in table.columns for v in extra.get("y0", {})))}
+                                "with_y0": int("y0" in extra), "model_with_a_silently_underflowing_rate_term": int(any(c["name"] == "vtail" for c in spec["components"])), "y0_and_a_table_column_name_the_same_variable": int(any(c in extra.get("y0", {}) for c in table.columns)), "time_points_beyond_the_protocol": int("beyond_end" in locals()), "rows_failing_in_a_later_protocol_step": int("late_failures" in locals()), "duplicate_row_labels": int(not table.index.is_unique), "column_overrides_assignment_defined_parameter": int(info["ia"] and "k1" in table.columns), "y0_overlaps_table_column": int(any(v in table.columns for v in extra.get("y0", {})))}
     ctx = {"kind": kind, "table": {"index": [str(i) for i in table.index], **{c: table[c].tolist() for c in table.columns}},
            "extra": {kk: (v.tolist() if hasattr(v, "tolist") else str(v)) for kk, v in extra.items()}, "ia_model": info["ia"], "spec": spec}
     # ---- oracle per row ------------------------------------------------------
